@@ -1,13 +1,30 @@
 (* C03 - skeptical acceptance answers match the semantics.
    Statements only; proofs are [exact].
-   PROVED so far (every valid SAT oracle, every compact component of any size):
-     - ST: the per-component skeptical step of StableSemanticsSolver: unsatisfiable iff every
-       stable extension of the component contains the argument (in particular when there is none).
-   NOT YET PROVED in Coq (tied by trace replay + brute-force oracle on every run): component
-   gluing, GR / DS-CO (grounded fix-point), the preferred counter-example loop and the SST / STG /
-   ID loops. *)
+   PROVED (every valid SAT oracle, every threshold >= 1, every admissible encoder, every good view
+   of a framework of any size, every fuel, both certificate flags, every list of arguments):
+     - C03_skeptical: for EVERY solver type with a skeptical entry point (GR - which also serves
+       DS-CO in the library -, ST, PR, SST, STG, ID) the status of a completed run of
+       [run_query .. QDS ..] is true iff every extension of the WHOLE framework under the
+       semantics contains a listed argument (in particular when there is no stable extension);
+       the run never panics.  This includes the preferred counter-example loop with its
+       shortcut, and the SST / STG / ID loops.
+     - C03_stable_component_partial (kept): the per-component step of the stable solver.
+   NOT proved in Coq (by design): that the Rust code behaves like Model.Solvers (the tie: trace
+   replay on every run).  Termination and fuel: see C18.
+   Vocabulary of the whole-framework theorems (Proofs/TopBase.v, TopMax.v, SolverTop.v):
+     view_good g F   the view g (iteration orders of an AAFramework) presents the framework F;
+                     instances: view_of_af of any compact framework, view_of_fw of any store
+                     reachable from new_with_labels by any update history (C01_good_view_compact, C01_good_view_store);
+     supported s q   the trait implementation exists (all but CO-SE, CO-DS, PR-DC, for which the
+                     library delegates to another solver type and the model has no entry point);
+     enc_ok s e      the encoder may be used with the solver type (CO, SST: complete-based; STG:
+                     conflict-free based; PR, ID: complete- or admissible-based; GR, ST: any);
+     al_ok s q F al  nothing for SE queries and for GR / ST; otherwise the listed ids are arguments
+                     of F (the list may be empty and may contain repetitions).
+*)
 From Crusta Require Import Spec.AF Sat.Cnf Sat.Prog Model.Encoders Model.Graph Model.Solvers.
 From Crusta Require Import Proofs.EncSpec Proofs.SolverBasics Proofs.SolverThms.
+From Crusta Require Import Proofs.TopBase Proofs.TopMax Proofs.SolverTop.
 
 Theorem C03_stable_component_partial : forall oracle thr, 1 <= thr -> valid_oracle oracle ->
   forall c n a, compact_af (c_af c) n -> a < n ->
@@ -20,4 +37,16 @@ Theorem C03_stable_component_partial : forall oracle thr, 1 <= thr -> valid_orac
               end).
 Proof. exact SolverThms.stable_component_skep_single. Qed.
 
+Theorem C03_skeptical : forall oracle thr g F,
+  valid_oracle oracle -> 1 <= thr -> view_good g F ->
+  forall s e al fuel cert st0, supported s QDS -> enc_ok s e -> al_ok s QDS F al ->
+  match run_query oracle thr fuel s QDS cert e g al st0 with
+  | Done (OAcc b _) _ => b = true <-> skep s F al
+  | Done (OExt _) _ => False
+  | Panic _ => False
+  | _ => True
+  end.
+Proof. exact SolverTop.top_skeptical. Qed.
+
 Print Assumptions C03_stable_component_partial.
+Print Assumptions C03_skeptical.
